@@ -104,6 +104,23 @@ func (g *thrGroup) reconstructStateless(run *mon.Run, signers []int, label strin
 	rep := map[string]any{"n": g.n, "t": g.t, "seed": mon.Hex(g.seed), "signers": signers, "msg": mon.Hex(g.msg), "tag": g.tag, "api": "stateless", "pattern": label}
 	var out crypto.Signature
 	var err error
+	// every other reconstruction is preceded, on this goroutine, by calls that are REJECTED (duplicate
+	// signer behind good entries, index out of range, a short share, too few shares): what they leave
+	// behind must not reach the next result
+	if (len(signers)+signers[0]+len(label))%2 == 1 && len(signers) >= 2 {
+		run.Count("reconstructions.after-rejected-calls", 1)
+		dup := append(append([]int{}, signers...), signers[len(signers)-1])
+		dupShares := append(append([]crypto.Signature{}, shares...), shares[len(shares)-1])
+		_, _ = crypto.BLSReconstructThresholdSignature(g.n, g.t, dupShares, dup)
+		oor := append([]int{}, signers...)
+		oor[len(oor)-1] = g.n
+		_, _ = crypto.BLSReconstructThresholdSignature(g.n, g.t, shares, oor)
+		short := append([]crypto.Signature{}, shares...)
+		short[len(short)-1] = short[len(short)-1][:47]
+		_, _ = crypto.BLSReconstructThresholdSignature(g.n, g.t, short, signers)
+		_, _ = crypto.BLSReconstructThresholdSignature(g.n, g.t, shares[:1], signers[:1])
+		_, _ = crypto.BLSReconstructThresholdSignature(g.n, g.t, shares, signers[:len(signers)-1])
+	}
 	if run.Guard("BLSReconstructThresholdSignature", rep, func() { out, err = crypto.BLSReconstructThresholdSignature(g.n, g.t, shares, signers) }) {
 		return
 	}
@@ -153,7 +170,23 @@ func (g *thrGroup) reconstructStateful(run *mon.Run, signers []int, trusted bool
 			}
 		}
 		out, err := ins.ThresholdSignature()
+		// the returned slice is the caller's: scribbling on it must not change what the object returns later
+		scribble := append([]byte{}, out...)
+		for i := range out {
+			out[i] ^= 0xA5
+		}
 		out2, err2 := ins.ThresholdSignature()
+		out = scribble
+		if err == nil && err2 == nil && bytes.Equal(scribble, g.E) && !bytes.Equal(out2, g.E) {
+			xored := append([]byte{}, scribble...)
+			for i := range xored {
+				xored[i] ^= 0xA5
+			}
+			if bytes.Equal(out2, xored) {
+				run.Violate("C06:returned-signature-aliases-cache", fmt.Sprintf("ThresholdSignature() returned %x; after the caller overwrote that slice, the next call returns the overwritten bytes %x (an invalid signature)", scribble, []byte(out2)), rep)
+				return
+			}
+		}
 		run.Eval(1)
 		run.Count("reconstructions.stateful", 1)
 		if err != nil || err2 != nil || !bytes.Equal(out, g.E) || !bytes.Equal(out2, g.E) {
